@@ -135,3 +135,39 @@ for sid, (summ, needs) in M2.items():
                          "demonstration with and without the change; then tools/seedmatrix.py (see results.json): patch applied to /repo, checks run, patch reverted")
     json.dump(m, open(p, "w"), indent=1)
 print("round 2 ok")
+
+M3 = {
+ "C02-r3.1": ("MCSLock::LockX/LockSIX publish the queue link before merging the inherited state into their node (as C02-1)", "an S predecessor runs UnlockS between the successor's link and its merge: node word underflows, successor waits for ever"),
+ "C02-r3.2": ("PessimisticLock::LockS as load, fetch_add, fetch_sub roll-back against whole-word unlock stores (as C01-1)", "a writer takes X between the reader's load and fetch_add and releases before the roll-back: word becomes all ones"),
+ "C03-r3.1": ("OptGuard::TryLockS: inner CAS-retry loop re-checks only the X bit, `acquired` flag replaces the version post-check", "a complete exclusive section between TryLockS's load and its first CAS: owning guard with a stale version"),
+ "C03-r3.2": ("guard move assignments rewritten with std::exchange: XGuard::operator= releases the old lock with the source's new_ver_", "lock coupling over two locks (guard = child.LockX()) with ver(child)+1 == ver(parent): parent's X section commits without a version change"),
+ "C04-r3.1": ("scan bound = largest thread ID bound so far, maintained by load-then-store (as C04-2)", "two threads bind their slots concurrently, the lower-ID thread preempted between load and store: higher slot never scanned"),
+ "C04-r3.2": ("coordinator resets the slot's weak_ptr when it reads expired() (as C04-1)", "a new thread binds the slot and creates a guard between the expired() sample and the reset()"),
+ "C08-r3.1": ("OptGuard::TryLock* CAS weakened from acquire to relaxed ('the load above has synchronised')", "a complete LockS/read/unlock of another thread between TryLockX's load and its CAS"),
+ "C08-r3.2": ("MCSLock::UnlockS tail-group branch: CAS of a sharer that is not the last one weakened to relaxed", "two sharers in one tail group, the first leaves while the group is still the tail, then the last sharer unlocks and a LockX follows"),
+ "C09-r3.1": ("'self-assignment safe' guard move assignments: XGuard::operator= copies new_ver_ from rhs before unlocking its old lock", "a live XGuard move-assigned with a guard of a different lock (or an empty guard) whose pending version differs"),
+ "C09-r3.2": ("XGuard::new_ver_ becomes uint64_t computed as ver + 1UL (as C02-2)", "a default-increment X section starting at version 2^32-1: carry leaves a phantom S holder"),
+ "C11-r3.1": ("MCSLock::UnlockX with sharers in the tail node's group: unconditional fetch_xor(kXLock) instead of the tail-checked CAS", "an X request swaps itself in between the releaser's read of the lock word and the fetch_xor: a later sharer is granted before it"),
+ "C11-r3.2": ("MCSLock::UnlockSIX takes the successor from the lock word's tail pointer instead of waiting for the link", "an SIX request stalled between its exchange and its link while a later request is already the tail: the later one is granted first"),
+ "C12-r3.1": ("LockS takes its node only when it starts a new reader group; unused node no longer returned to the cache (as C12-1)", "a LockS that saw the lock free loses the CAS race and joins the other group: node leaked"),
+ "C12-r3.2": ("UnlockS treats the new tail in the lock word as its successor instead of waiting for the link", "an X/SIX requester preempted between its swap and its link: the last reader recycles the node, the delayed write lands on a recycled/freed node"),
+ "C13-r3.1": ("PrepareRead fallback reuses the word refreshed by a failed CAS and accepts it when its X bit is clear", "a complete LockX/unlock between the fallback's load of a free word and its CAS: owning guard with no S grant in the word"),
+ "C13-r3.2": ("CompositeGuard move assignment takes over rhs's state before releasing (old S released through the overwritten dest_)", "an owning guard of lock A move-assigned from a guard of a different lock B: A's grant leaks, B underflows"),
+ "C17-r3.1": ("Epoch::EnterEpoch: single retry that adopts the newer global epoch without re-validating (as C17-r2.1)", "worker publishes 767, sees 768 on its validating load, then stalls for 257+ forwards before its second store"),
+ "C17-r3.2": ("coordinator scans only slots below a high-water mark raised by load + plain store", "two threads registering concurrently, the lower-ID thread preempted between load and store; then the epoch passes two node boundaries"),
+ "C20-r3.1": ("manager scans only registered slots and drops an exited thread's slot by swap-remove without re-checking the moved entry", "an earlier-registered thread exits while the last-registered thread holds a guard: the next forward omits that guard's epoch"),
+ "C20-r3.2": ("unlinked nodes parked in retired_lists_ until the next forward; destructor walks only the main chain (as C20-2)", "manager destroyed right after a forward that unlinked nodes: leak"),
+}
+for sid, (summ, needs) in M3.items():
+    p = os.path.join(V, "seeded", sid, "meta.json")
+    if not os.path.exists(p):
+        print("missing", sid); continue
+    m = json.load(open(p))
+    m["summary"] = summ
+    m["needs"] = needs
+    m["breaks_property"] = m.get("target_property")
+    m["round"] = 3
+    m["what_was_run"] = ("seeded/verify.sh of the sub-agent re-run by the framework author in a scratch worktree (see verify_result.txt): repository test suite with the change, "
+                         "demonstration with and without the change; then tools/seedmatrix.py (see results.json): patch applied to a scratch worktree of /repo, checks run with VERIF_REPO pointing there, patch reverted")
+    json.dump(m, open(p, "w"), indent=1)
+print("round 3 ok")
